@@ -275,7 +275,23 @@ class GarbageCollector:
         return deleted_count
 
     def _normalize_path(self, path: str) -> str:
-        """Normalize path to be relative to table root and strip leading slashes."""
-        if path.startswith(self.table_path):
-            path = path[len(self.table_path):]
-        return path.lstrip("/")
+        """Normalize path to be relative to table root and strip leading slashes.
+
+        Listings return table-relative keys ("data/x") and every reader resolves
+        a stored path by dropping leading slashes and joining it to the table
+        root ("/data/x" -> "data/x"). Both spellings of one file must normalise
+        to the same key for EVERY table location, so a path that already lies
+        under one of the table's own directories is returned as is. The table
+        location is removed only from a legacy absolute spelling
+        "<table_path>/<relative>", and only on a path-component boundary: a plain
+        startswith() strip mangled listed keys whenever the location was a string
+        prefix of "data/..." or "metadata/..." (tables at "d", "data", "m", ...),
+        which made every live file look like an orphan.
+        """
+        rel = path.lstrip("/")
+        if rel.startswith("data/") or rel.startswith("metadata/"):
+            return rel
+        root = self.table_path.rstrip("/")
+        if root and path.startswith(root + "/"):
+            return path[len(root):].lstrip("/")
+        return rel
